@@ -19,7 +19,8 @@ Definition str_eqb : str -> str -> bool := list_beq Z.eqb.
 (* file names are relative to root_dir; base_path = os.path.join(root_dir, _CHECKPOINT_PREFIX) *)
 Definition base : str := checkpoint_prefix.
 (* <eval_name>.tsv of the i-th final evaluation function; the harness names them e0, e1, ... *)
-Definition tsv_name (i : Z) : str := [101; 48 + i; 46; 116; 115; 118].
+(* metrics_file_name is translated from `f'{eval_name}.tsv'` *)
+Definition tsv_name (i : Z) : str := metrics_file_name [101; 48 + i].
 
 Record C09_cfg := mkCfg { c_R : Z; c_freq : Z; c_keep : Z; c_evf : Z; c_nev : nat }.
 
@@ -237,7 +238,8 @@ Fixpoint dirs_agree (ds : list (@AtomFS.dir str (list Z))) (os : list odir) : bo
 Record C09_case := mkC09 {
   k_R : Z; k_freq : Z; k_keep : Z; k_evf : Z; k_nev : nat;
   k_digests : list Z;      (* digest of the cohort a fresh sampler draws for round 1, 2, ... *)
-  k_crashes : list nat     (* model-level effect index at which each successive call is killed *)
+  k_crashes : list nat;    (* model-level effect index at which each successive call is killed *)
+  k_foreign : bool         (* the directory holds foreign files whose names nearly are checkpoint names *)
 }.
 Record C09_obs := mkO09 {
   o_dirs : list odir;      (* directory listing after each killed call *)
@@ -246,9 +248,16 @@ Record C09_obs := mkO09 {
   o_state : Z * Z          (* state returned by the final call *)
 }.
 
+(* files of somebody else that pass the glob `checkpoint_*` (or nearly) but not the 8-digit filter *)
+Definition foreign_names : list string :=
+  ["checkpoint_1"; "checkpoint_000000011"; "checkpoint_0000000a"; "checkpoint_00000001.bak"; "checkpoint_";
+   "xcheckpoint_00000001"; "checkpoint_00000002 "]%string.
+Definition foreign_dir : @AtomFS.dir str (list Z) := map (fun n => (str_of_string n, Whole [7; 7])) foreign_names.
+Definition start_dir (c : C09_case) : @AtomFS.dir str (list Z) := if k_foreign c then foreign_dir else [].
+
 Definition C09_history (c : C09_case) :=
   history (toy_step (k_digests c)) (0, 0) toy_save toy_load toy_tsv
-          (mkCfg (k_R c) (k_freq c) (k_keep c) (k_evf c) (k_nev c)) [] (k_crashes c).
+          (mkCfg (k_R c) (k_freq c) (k_keep c) (k_evf c) (k_nev c)) (start_dir c) (k_crashes c).
 
 Definition C09_agree (c : C09_case) (o : C09_obs) : bool :=
   match C09_history c with
